@@ -141,3 +141,57 @@ PROPS["C04"] = dict(
                   "RFC 6979 section 3.2 step h as the state functions K_j, V_j, W_j,i, T_j,i, cand_j of contracts/rfc6979.py (written from the RFC)", "byte-string axioms, shr/mod axioms (cross-checked against CPython)"],
     explanation="generate_k is proved equal to the RFC 6979 candidate sequence by loop invariants over ghost round counters (outer step h loop and inner h.2 loop), for every order >= 2, key, digest length, hash output length and retry count; the retry loop of sign_digest_deterministic skips one more candidate per RSZeroError and returns the standard signature for that nonce",
 )
+
+
+def _c16_isprime(tier, seed):
+    from contracts.numbertheory import is_prime_bounded
+    return is_prime_bounded(tier, seed)
+
+
+def _c16_fact(tier, seed):
+    from contracts.numbertheory import factorization_bounded
+    return factorization_bounded(tier, seed)
+
+
+def _lean_check(R, tier, seed):
+    """thorough tier: the K6 lemmas behind the SMT axioms sqrt_3mod4 / sqrt_5mod8 are re-checked by lean"""
+    import subprocess, time, os
+    if tier != "thorough":
+        R.assumptions.add("K6 Lean lemmas (lean/NumberTheory.lean) are not re-checked in the quick tier; the thorough tier runs lean on them")
+        return
+    t0 = time.time()
+    root = os.path.dirname(os.path.dirname(os.path.abspath(__file__)))
+    r = subprocess.run(["lean", os.path.join(root, "lean", "NumberTheory.lean")], capture_output=True, text=True, timeout=1500)
+    ok = r.returncode == 0 and "error" not in r.stdout and "error" not in r.stderr
+    R.obl["lean:NumberTheory.lean#sqrt_3mod4+sqrt_5mod8"] = dict(n=1, ok=1 if ok else 0, seconds=time.time() - t0, backends=__import__("collections").Counter({"lean": 1}),
+                                                               bad=[] if ok else [dict(path="-", line=None, verdict="lean failed", note=(r.stdout + r.stderr)[-400:], instance="lean")],
+                                                               kind="lean-lemma", func="lean")
+    R.solver_time["lean"] += time.time() - t0
+
+
+_NT = "ecdsa.numbertheory."
+PROPS["C15"] = dict(
+    closed=[_lean_check],
+    level="other",
+    functions=[_NT + "inverse_mod", _NT + "jacobi", _NT + "square_root_mod_prime"],
+    lemmas=[],
+    bounded=[_B(_NT + "inverse_mod", "all a in [-2m-2, 2m+2] coprime to m for m < 60; structured a (negative, larger than m, 600-bit) for 10 large moduli"),
+             dict(function=_NT + "jacobi", role="bounded stand-in for `jacobi = product of Legendre symbols`", bound="all odd n < 400 (quick) / 3000 (thorough) x a in [-n, 2n] (n < 120) or structured a; the 17 field primes and orders"),
+             dict(function=_NT + "square_root_mod_prime", role="CPython cross-check; bounded stand-in for the p = 1 (mod 8) branch", bound="all primes p < 400 (quick) / 2000 (thorough) x all residues a; the 34 curve primes/orders and 5 large primes x structured a")],
+    min_obligations=10,
+    trusted_base=["builtin pow(a, -1, m) and pow(b, e, m)", "K6 lemmas sqrt_3mod4 / sqrt_5mod8 (lean/NumberTheory.lean, checked by lean in the thorough tier)",
+                  "jacobi(a, p) == -1 iff a is a non-residue for prime p: ASSUMED at the call site in square_root_mod_prime (bounded stand-in only)"],
+    explanation="inverse_mod: range and a*i = 1 (mod m) for every a coprime to m (any sign/size) from the builtin's contract; jacobi: result in {-1,0,1}, the recursive call meets its asserts, termination by decreasing a1; square_root_mod_prime: for p = 3 (mod 4) and p = 5 (mod 8) root*root = a, 0 <= root < p, SquareRootError only for non-residues, RuntimeError unreachable (modulo the Lean lemmas and the assumed Legendre clause); p = 1 (mod 8) (Cipolla) and the Legendre-product equality of jacobi are bounded",
+)
+PROPS["C16"] = dict(
+    level="other",
+    functions=[_NT + "gcd", _NT + "lcm2", _NT + "lcm", _NT + "next_prime"],
+    lemmas=[],
+    bounded=[_B(_NT + "gcd", "14 structured values (incl. 0, 2^64, 10^20), every calling convention"), _B(_NT + "lcm", "same, positive values"),
+             dict(function=_NT + "is_prime", label="is_prime / next_prime against a sieve", role="bounded stand-in for is_prime exactness and next_prime", bound="exhaustive below 2^16 (quick) / 2^20 (thorough); published strong pseudoprimes to the first prime bases, Carmichael numbers, products of close primes, the 34 curve primes and orders", run=_c16_isprime),
+             dict(function=_NT + "factorization", label="factorization: ascending prime powers with product n", role="bounded stand-in", bound="all n below 30000 (quick) / 2*10^6 (thorough) + squares and products of primes just above 1229, prime powers, n up to 10^12", run=_c16_fact)],
+    min_obligations=8,
+    trusted_base=["math.gcd is the gcd", "lcm(a,b) = a*b / gcd(a,b)", "Miller-Rabin with the first 12 prime bases is exact below 3.18*10^23 (Jaeschke; Sorenson-Webster): the exactness of is_prime below 2^64 beyond the bounded range rests on this published theorem",
+                  "is_prime as used by next_prime: never rejects a prime, exact below 2^64 (ASSUMED; bounded stand-in)"],
+    explanation="gcd / lcm for 1, 2, 3 arguments and for one iterable equal the fold of math.gcd / a*b//gcd; next_prime: partial correctness (greater, prime, no prime in between) by a quantified loop invariant from is_prime's assumed contract; is_prime and factorization are decided by bounded stand-ins",
+)
